@@ -81,6 +81,7 @@ Proof.
   - exists []. cbn. rewrite N.add_0_r. auto.
   - destruct IH as (xs & A & B & C & D). exists xs. cbn [md5_consume e_emitted_rev e_frames_rev e_frame_number]. auto.
   - destruct IH as (xs & A & B & C & D). unfold encoder_encode in Henc.
+    destruct (si_max_bs (e_si e) <? block_len b); [discriminate|].
     destruct (u64_add p (e_samples_written e) (block_len b)) as [written| |]; try discriminate. cbn [bind] in Henc.
     destruct (match si_total (e_si e) with Some t => t <? written | None => false end); [discriminate|].
     destruct (8 <? N.of_nat (length b)); [discriminate|].
